@@ -577,7 +577,9 @@ def X3b(ctx: Ctx) -> RuleResult:
     r = RuleResult('X3b', 'explicit raises of the rewriter are the documented ones: ZeroDivisionError under a zero-divisor test, ValueError for a literally false conjunct / missing inverse, defensive TypeError defaults')
     mod = ctx.model.module('hpl.rewrite', 'X3b')
     n = 0
+    roots_of = _public_roots(mod)
     for fi in mod.functions.values():
+        roots = roots_of(fi.name)
         for node in ast.walk(fi.node):
             if not isinstance(node, ast.Raise):
                 continue
@@ -588,12 +590,12 @@ def X3b(ctx: Ctx) -> RuleResult:
             txt = ' && '.join(tests)
             key = f'{fi.qualname}:raise {cls}'
             if cls == 'ZeroDivisionError':
-                if any('.value == 0' in t for t in tests) and fi.name == '_simplify_division':
+                if any('.value == 0' in t for t in tests) and roots == {'simplify'}:
                     r.ok(f'{fi.qualname}: ZeroDivisionError under a literal-zero divisor test')
                 else:
                     r.fail(key, f'ZeroDivisionError raised without a dominating divisor == 0 test ({txt})', where)
             elif cls == 'ValueError':
-                if fi.name == '_split_and_expr' and any('is_false' in t for t in tests):
+                if roots == {'split_and'} and any('is_false' in t for t in tests):
                     r.ok(f'{fi.qualname}: ValueError for a literally false conjunct')
                 elif fi.name == 'inverse_operator' and any('is None' in t for t in tests):
                     r.ok(f'{fi.qualname}: ValueError when the operator has no inverse')
@@ -609,6 +611,32 @@ def X3b(ctx: Ctx) -> RuleResult:
                 r.fail(key, f'the rewriter raises {cls}: not a documented outcome of simplify/split_and/refactor_reference/canonical_form', where)
     r.floor('raise sites in rewrite.py', n, 5)
     return r
+
+
+def _public_roots(mod):
+    """name -> the public functions of the module from which it is reachable (itself when public)"""
+    calls = {f.name: {x.id for x in ast.walk(f.node) if isinstance(x, ast.Name) and x.id in mod.functions and x.id != f.name} for f in mod.functions.values()}
+    callers: Dict[str, Set[str]] = {k: set() for k in calls}
+    for k, vs in calls.items():
+        for v in vs:
+            callers[v].add(k)
+
+    def roots(name: str) -> Set[str]:
+        if not name.startswith('_'):
+            return {name}
+        seen, todo, out = {name}, [name], set()
+        while todo:
+            x = todo.pop()
+            for c in callers.get(x, ()):
+                if c in seen:
+                    continue
+                seen.add(c)
+                if c.startswith('_'):
+                    todo.append(c)
+                else:
+                    out.add(c)
+        return out
+    return roots
 
 
 def _dominating_tests(fn: ast.AST, target: ast.AST) -> List[str]:
